@@ -569,6 +569,8 @@ class Stepper:
             t.fired = True
             func = t.function.__func__
             key = "update" if func.__name__ == "update" else "ps"
+            if func.__name__ not in ("update", "_print_status"):
+                self.ops = dict(self.ops, ps=[])       # unknown callback: runs as one step
 
             def cb(t=t):
                 try:
@@ -591,6 +593,51 @@ def parse_proto(line):
     for part in line.split(";"):
         k, v = part.split("=", 1)
         ops[k] = [(x.rsplit(":", 1)[0], int(x.rsplit(":", 1)[1])) for x in v.split(",") if x]
+    return ops
+
+
+def real_ops_from_source():
+    """Gate lines taken from the real class alone (no translator, no model): every statement
+    of ProgressBar.enter / update / exit is a preemption point; `with self._lock:` is
+    `acquire` on entry and `release` on leaving; the one-shot callback is one step."""
+    import ast
+    import inspect
+    import textwrap
+    import oqupy.util as U
+    cls = U.ProgressBar
+    ops = {}
+    for key, name in (("enter", "enter"), ("update", "update"), ("exit", "exit"),
+                      ("ps", "_print_status")):
+        fn = getattr(cls, name)
+        src, first = inspect.getsourcelines(fn)
+        tree = ast.parse(textwrap.dedent("".join(src)))
+        out = []
+
+        def visit(stmts):
+            for st in stmts:
+                if isinstance(st, ast.Expr) and isinstance(st.value, ast.Constant):
+                    continue
+                ln = st.lineno + first - 1
+                if isinstance(st, ast.With):
+                    is_lock = any(isinstance(i.context_expr, ast.Attribute)
+                                  and "lock" in i.context_expr.attr.lower() for i in st.items)
+                    out.append(("acquire" if is_lock else "stmt", ln))
+                    visit(st.body)
+                    out.append(("release" if is_lock else "stmt", ln))
+                elif isinstance(st, ast.If):
+                    out.append(("stmt", ln))
+                    visit(st.body)
+                    visit(st.orelse)
+                elif isinstance(st, ast.Try):
+                    visit(st.body)
+                    for h in st.handlers:
+                        visit(h.body)
+                    visit(st.orelse)
+                    visit(st.finalbody)
+                else:
+                    out.append(("stmt", ln))
+        visit(tree.body[0].body)
+        ops[key] = out[:1] if key == "ps" else out
     return ops
 
 
@@ -753,6 +800,8 @@ def check_api_payload(p):
 
 def check_race_payload(p, ops):
     """replay a recorded schedule (disabled actions skipped, then drained without firing)"""
+    if p.get("gating") == "source":
+        ops = real_ops_from_source()
     log, done, verdict, fin = run_schedule(ops, p.get("nupd", 1), p.get("guarded", True),
                                            p["schedule"], skip_disabled=True, drain=True)
     if fin and verdict:
@@ -953,20 +1002,23 @@ def search(res, rng=None):
                               "and no new thread may be alive" % (key, v, title)))
     # schedules of the real ProgressBar (harness-side exploration only, no model involved)
     try:
-        ops = parse_proto(fw.run_driver(PID, ["proto bar"])[0])
+        ops = real_ops_from_source()
     except Exception:
         ops = None
     if ops is not None:
-        for (nupd, maxfire, cap) in ((0, 1, 200), (1, 1, 3000)):
-            runs, _c = explore_real(ops, nupd, True, maxfire, cap)
+        for (nupd, maxfire, cap) in ((0, 1, 200), (1, 1, 3000), (2, 1, 4000)):
+            if nupd >= 2 and res.failing:
+                break       # the deeper exploration only when nothing failed so far
+            runs, _c = explore_real(ops, nupd, True, maxfire, cap, budget=60.0)
             for (sched, log, verdict, fin) in runs:
                 if fin and verdict:
                     res.fail("race:ProgressBar exit() vs timer callback",
                              {"type": "race", "nupd": nupd, "guarded": True, "schedule": sched,
+                              "gating": "source",
                               "pending_timers_after_exit": verdict,
                               "final": log.split(" | ")[-1],
-                              "how": "fake Timer at oqupy.util.Timer; threads gated at the "
-                                     "source lines of ProgressBar.enter/update/exit; M = main "
+                              "how": "fake Timer at oqupy.util.Timer; threads gated at every "
+                                     "statement of ProgressBar.enter/update/exit; M = main "
                                      "executes its next statement, F<i> = timer i fires, "
                                      "T<i> = callback of timer i executes its next statement"})
                     break
